@@ -15,6 +15,7 @@ import (
 	"filippo.io/age/armor"
 	"filippo.io/age/xverif/internal/rd"
 	"filippo.io/age/xverif/internal/vk"
+	"filippo.io/age/xverif/props/armrd"
 )
 
 type rcase struct {
@@ -246,7 +247,7 @@ CHECK_DEADLOCK FALSE
 `, seed%50, sizes, maxWrites, maxTotal)
 }
 
-var allBad = []string{"full_b", "short47", "short46", "empty", "empty_crlf", "crcr", "long", "long65", "noncanon", "nopad", "midpad", "trail_sp", "lead_sp", "cr_in", "cr_lead", "cr_trail2", "kv", "garbage", "lower_marker", "sp_marker", "sp_end", "wrong_type", "pgp_crc", "partial", "ws1", "BEGIN", "short3"}
+var allBad = []string{"full_b", "short47", "short46", "empty", "empty_crlf", "crcr", "long", "long65", "noncanon", "nopad", "midpad", "trail_sp", "lead_sp", "cr_in", "cr_lead", "cr_trail2", "kv", "garbage", "lower_marker", "sp_marker", "sp_end", "wrong_type", "pgp_crc", "partial", "ws1", "BEGIN", "short3", "ws_badutf", "ws_zwsp", "ws_nbsp"}
 
 func runRead(run *vk.Run, what, cfg string) {
 	res := run.TLC(what, vk.TLCOpts{Module: "ArmorGen", Config: cfg, Workers: 16})
@@ -310,18 +311,27 @@ func runWrite(run *vk.Run, what, cfg string) {
 func Run(tier string) {
 	run := vk.NewRun("C08", tier, "model_checking")
 	run.Rule("TLC enumerates armor texts as paths of line classes through the phases pre/body/short/post with malformed classes at every position followed by up to MaxCont further lines, checks ArmorCanonical on the specification and emits text+verdict+normal form; each text is de-armored by armor.NewReader under 8 delivery kinds. TLC enumerates all write schedules over the size set (writer machine, checked equal to Armor(b)); each is replayed into armor.NewWriter. Oracle mode: mutated valid armor recorded from the implementation and judged by TLC. A case is distinct by class path / write schedule.")
-	run.Assume("AgeArmor.tla: tolerances are exactly whitespace-only lines before BEGIN, CR before LF, whitespace after END, missing final LF; non-ASCII whitespace and whitespace within 8 bytes of the 1024-byte limits are not generated")
+	run.Assume("AgeArmor.tla: tolerances are exactly whitespace-only lines before BEGIN, CR before LF, whitespace after END, missing final LF, where whitespace is what Go's bytes.TrimSpace removes (ASCII and the Unicode space characters in UTF-8; modelled as implemented). The exact 1024-byte whitespace limits are exercised by the reader machine (ArmorRead.tla), not by the byte-level generator")
 	seed := run.Seed
-	pre := set("ws1", "ws_crlf", "crcr")
+	pre := set("ws1", "ws_crlf", "crcr", "ws_nbsp")
 	if run.Thorough() {
-		runRead(run, "good", readCfg(seed, set("ws1", "ws_crlf", "crcr", "ws_big"), set("BEGIN", "BEGIN_crlf"), set("full", "full_b", "full_crlf"), set("short1", "short2", "short3", "short46", "short47", "short3_crlf"), set("END", "END_nolf", "END_crlf"), set("ws1", "ws_crlf", "ws_big"), "{}", "{}", 2, 3, 2, 0))
+		runRead(run, "good", readCfg(seed, set("ws1", "ws_crlf", "crcr", "ws_big", "ws_nbsp", "ws_uni"), set("BEGIN", "BEGIN_crlf"), set("full", "full_b", "full_crlf"), set("short1", "short2", "short3", "short46", "short47", "short3_crlf"), set("END", "END_nolf", "END_crlf"), set("ws1", "ws_crlf", "ws_big", "ws_uni"), "{}", "{}", 2, 3, 2, 0))
 		runRead(run, "bad", readCfg(seed, pre, set("BEGIN"), set("full", "full_crlf"), set("short3", "short47"), set("END", "END_nolf"), set("ws1"), set(allBad...), set("END", "full", "short3", "garbage", "ws1"), 1, 2, 1, 3))
 		runWrite(run, "write", writeCfg(seed, "{0,1,2,3,47,48,49,95,96,97}", 4, 300))
 		run.Exhaustive()
 	} else {
-		runRead(run, "good", readCfg(seed, pre, set("BEGIN", "BEGIN_crlf"), set("full", "full_crlf"), set("short1", "short3", "short47", "short3_crlf"), set("END", "END_nolf", "END_crlf"), set("ws1", "ws_crlf"), "{}", "{}", 1, 2, 1, 0))
+		runRead(run, "good", readCfg(seed, pre, set("BEGIN", "BEGIN_crlf"), set("full", "full_crlf"), set("short1", "short3", "short47", "short3_crlf"), set("END", "END_nolf", "END_crlf"), set("ws1", "ws_crlf", "ws_nbsp"), "{}", "{}", 1, 2, 1, 0))
 		runRead(run, "bad", readCfg(seed, set("ws1"), set("BEGIN"), set("full"), set("short3"), set("END"), set("ws1"), set(allBad...), set("END", "full", "garbage"), 1, 2, 1, 2))
 		runWrite(run, "write", writeCfg(seed, "{0,1,2,3,47,48,49,96}", 3, 200))
+	}
+	// the reader as a machine: every Read call of every behaviour of ArmorRead.tla replayed against armor.NewReader
+	if run.Thorough() {
+		armrd.Run(run, "reader-machine-full-alphabet", armrd.Config(2, 1, 9, 1, "{1, 48}", 6, false, true), "", 0)
+		armrd.Run(run, "reader-machine", armrd.Config(1, 1, 9, 2, "{0, 1, 47, 48, 100}", 8, false, true), "", 0)
+		armrd.Run(run, "reader-machine-2dev", armrd.Config(1, 2, 8, 1, "{1, 48}", 6, false, true), "", 0)
+		armrd.Run(run, "reader-machine-all-seqs", armrd.Config(0, 0, 6, 1, "{1, 48, 100}", 8, false, true), "", 0)
+	} else {
+		armrd.Run(run, "reader-machine", armrd.Config(1, 1, 8, 1, "{1, 48, 100}", 8, false, true), "", 0)
 	}
 	sizesSweep(run)
 	oracle(run, rand.New(rand.NewSource(seed)))
